@@ -34,6 +34,9 @@ pub enum Kind {
     Pulse { wire: usize, bin: usize, row: usize, amp: f64 },
     /// synthetic hit pattern (degenerate geometries for the reconstruction)
     Hits { pattern: u8, n: usize },
+    /// the same synthetic hit patterns packed for a REAL run number: that run's maps, delays and
+    /// calibration tables (baselines as pedestals) take part in the result
+    RealHits { run: u32, pattern: u8, n: usize },
     /// random bank names and bytes
     Random { n: usize },
     /// C10 base event with one event-builder fault
@@ -145,33 +148,11 @@ pub fn kind_banks(kind: &Kind, seed: u64) -> (u32, BankList) {
             let sig = fwd::signals_of(&[Av { wire: *wire, bin: *bin, z, wire_amp: *amp, pad_amp: amp * 12.0 }], 0.005);
             (fwd::SIM_RUN, fwd::banks_of(&sig, 1, 0.0, seed, 65535))
         }
-        Kind::Hits { pattern, n } => {
-            let mut avs = Vec::new();
-            let w0 = r.usize(0, 255);
-            let z0 = r.f64_range(-1.0, 1.0);
-            for k in 0..*n {
-                avs.push(match pattern {
-                    // radial line: same wire, successive times (exactly collinear in x-y)
-                    0 => Av { wire: w0, bin: (5 + 4 * k) % 290, z: z0 + 0.002 * k as f64, wire_amp: 80.0, pad_amp: 900.0 },
-                    // same time on many wires (equal radii: a circle arc around the axis)
-                    1 => Av { wire: (w0 + k) % 256, bin: 100, z: z0, wire_amp: 80.0, pad_amp: 900.0 },
-                    // repeated identical points
-                    2 => Av { wire: w0, bin: 60, z: z0, wire_amp: 80.0, pad_amp: 900.0 },
-                    // full ring at one time
-                    3 => Av { wire: (k * 256 / n.max(&1)) % 256, bin: 30 + (k % 3), z: z0 + 0.004 * (k % 5) as f64, wire_amp: 60.0, pad_amp: 700.0 },
-                    // vertical line: same wire, same time, many z
-                    4 => Av { wire: w0, bin: 120, z: -1.1 + 2.2 * k as f64 / *n as f64, wire_amp: 80.0, pad_amp: 900.0 },
-                    // seam-straddling block
-                    5 => Av { wire: (250 + k % 12) % 256, bin: (20 + 3 * k) % 290, z: z0 + 0.003 * k as f64, wire_amp: 80.0, pad_amp: 900.0 },
-                    // two crossing lines
-                    6 => Av { wire: (w0 + if k % 2 == 0 { (k / 2) % 256 } else { 256 - (k / 2) % 256 }) % 256, bin: (10 + 6 * (k / 2)) % 290, z: z0, wire_amp: 80.0, pad_amp: 900.0 },
-                    // random cloud
-                    _ => Av { wire: r.usize(0, 255), bin: r.usize(0, 280), z: r.f64_range(-1.15, 1.15), wire_amp: r.f64_range(5.0, 300.0), pad_amp: r.f64_range(50.0, 2500.0) },
-                });
-            }
-            let sig = fwd::signals_of(&avs, *r.pick(&[0.003, 0.005, 0.008]));
-            (fwd::SIM_RUN, fwd::banks_of(&sig, r.next_u32(), *r.pick(&[0.0, 0.0, 3.0, 30.0]), r.next_u64(), 30000))
+        Kind::RealHits { run, pattern, n } => {
+            let (_, sim) = kind_banks_hits(&mut r, *pattern, *n, Some(*run));
+            (*run, sim)
         }
+        Kind::Hits { pattern, n } => kind_banks_hits(&mut r, *pattern, *n, None),
         Kind::Random { n } => {
             let names = ["ATAT", "C09A", "C10V", "C18Z", "PC00", "PC26", "PC99", "B09F", "TRBA", "MCVX", "XXXX", "", "C", "PC", "ATA", "Cé1", "c09a", "CBF1", "SEQ2", "C0900", "P C1"];
             let mut out = Vec::new();
@@ -224,6 +205,7 @@ fn random_kind(r: &mut Rng, tier: Tier, index: u64) -> Kind {
             seam: r.chance(1, 3),
         },
         4 | 5 => Kind::Pulse { wire: r.usize(0, 255), bin: r.usize(0, 300), row: r.usize(0, 575), amp: *r.pick(&[80.0, 20.0, 300.0]) },
+        7 if r.chance(1, 2) => Kind::RealHits { run: *r.pick(&[11084u32, 11192, 12000, 9277, 10418, 7026]), pattern: r.below(8) as u8, n: *r.pick(&[1usize, 13, 40, 256]) },
         6 | 7 => Kind::Hits { pattern: r.below(8) as u8, n: if tier == Tier::Thorough && r.chance(1, 20) { *r.pick(&[600usize, 1000, 2000]) } else { *r.pick(&[1usize, 2, 12, 13, 14, 30, 60, 256]) } },
         8 => Kind::Random { n: r.usize(0, 12) },
         _ => Kind::EvFault {
@@ -482,12 +464,44 @@ impl Check for C09Check {
     }
 }
 
+/// Synthetic hit patterns (degenerate geometries) through the detector response, packed for
+/// the simulation run or for `run`.
+fn kind_banks_hits(r: &mut Rng, pattern: u8, n: usize, run: Option<u32>) -> (u32, BankList) {
+            let mut avs = Vec::new();
+            let w0 = r.usize(0, 255);
+            let z0 = r.f64_range(-1.0, 1.0);
+            for k in 0..n {
+                avs.push(match &pattern {
+                    // radial line: same wire, successive times (exactly collinear in x-y)
+                    0 => Av { wire: w0, bin: (5 + 4 * k) % 290, z: z0 + 0.002 * k as f64, wire_amp: 80.0, pad_amp: 900.0 },
+                    // same time on many wires (equal radii: a circle arc around the axis)
+                    1 => Av { wire: (w0 + k) % 256, bin: 100, z: z0, wire_amp: 80.0, pad_amp: 900.0 },
+                    // repeated identical points
+                    2 => Av { wire: w0, bin: 60, z: z0, wire_amp: 80.0, pad_amp: 900.0 },
+                    // full ring at one time
+                    3 => Av { wire: (k * 256 / n.max(1)) % 256, bin: 30 + (k % 3), z: z0 + 0.004 * (k % 5) as f64, wire_amp: 60.0, pad_amp: 700.0 },
+                    // vertical line: same wire, same time, many z
+                    4 => Av { wire: w0, bin: 120, z: -1.1 + 2.2 * k as f64 / n as f64, wire_amp: 80.0, pad_amp: 900.0 },
+                    // seam-straddling block
+                    5 => Av { wire: (250 + k % 12) % 256, bin: (20 + 3 * k) % 290, z: z0 + 0.003 * k as f64, wire_amp: 80.0, pad_amp: 900.0 },
+                    // two crossing lines
+                    6 => Av { wire: (w0 + if k % 2 == 0 { (k / 2) % 256 } else { 256 - (k / 2) % 256 }) % 256, bin: (10 + 6 * (k / 2)) % 290, z: z0, wire_amp: 80.0, pad_amp: 900.0 },
+                    // random cloud
+                    _ => Av { wire: r.usize(0, 255), bin: r.usize(0, 280), z: r.f64_range(-1.15, 1.15), wire_amp: r.f64_range(5.0, 300.0), pad_amp: r.f64_range(50.0, 2500.0) },
+                });
+            }
+            let sig = fwd::signals_of(&avs, *r.pick(&[0.003, 0.005, 0.008]));
+            let run = run.unwrap_or(fwd::SIM_RUN);
+            (run, fwd::banks_of_run(&sig, run, r.next_u32(), *r.pick(&[0.0, 0.0, 3.0, 30.0]), r.next_u64(), 30000))
+}
+
 pub fn kind_name(k: &Kind) -> &'static str {
     match k {
         Kind::Fwd { .. } => "fwd",
         Kind::Extreme { .. } => "extreme",
         Kind::Pulse { .. } => "pulse",
         Kind::Hits { .. } => "hits",
+        Kind::RealHits { .. } => "realhits",
         Kind::Random { .. } => "random",
         Kind::EvFault { .. } => "evfault",
         Kind::File { .. } => "file",
